@@ -191,8 +191,8 @@ def pyLexStr (src : String) : Option String := (lexSrc src.toList).map String.of
 
 def indent4 : List Char := [' ', ' ', ' ', ' ']
 
-/-- `_docstring_text`: `.replace("\\", "\\\\").replace('"""', '\\"\\"\\"').replace("\r", "\\r")` as one
-    left-to-right pass (the three replacements act on disjoint characters and `str.replace` is
+/-- `_docstring_text`: `.replace("\\", "\\\\").replace('"""', '\\"\\"\\"').replace("\r", "\\r").replace("\x00", "\\x00")`
+    as one left-to-right pass (the replacements act on disjoint characters and `str.replace` is
     leftmost, non-overlapping).  `k` = number of following characters that belong to a `"""`
     whose first quote has just been escaped; in that state a `"` is written `\"`.
     (A non-quote character in state `k > 0` cannot occur; it is treated as in state 0.) -/
@@ -205,6 +205,7 @@ def docEsc : Nat → List Char → List Char
        else cDQ :: docEsc 0 r)
     else if c = cBS then cBS :: cBS :: docEsc 0 r
     else if c = cCR then cBS :: 'r' :: docEsc 0 r
+    else if c = cNUL then cBS :: 'x' :: '0' :: '0' :: docEsc 0 r
     else c :: docEsc 0 r
 termination_by structural _ cs => cs
 
